@@ -91,10 +91,21 @@ def check(prog, res, tier):
                            rule='C19.a.mci_ipm_encode', unknown_ok=benign_unknown))
 
     # ---- C19.a the command-line glue of the two encoders: file names -> binary files, --no1014blocking -> both formats vbs
-    from .tools import cli_glue_ob
+    from .tools import cli_glue_ob, cli_argv_ob
     for mod, tool in (('cli.mci_ipm_encode', 'mci_ipm_encode'), ('cli.mci_ipm_param_encode', 'mci_ipm_param_encode')):
         ob = cli_glue_ob(prog, res, 'C19.a', mod, tool, 'in_file', 'out_file', 'rb', 'wb',
                          passthrough=('in_encoding', 'out_encoding'), formats_switch=True)
+        if ob is not None:
+            res.add(ob)
+        ob = cli_argv_ob(prog, res, 'C19.a', mod, tool, 'in_file', 'out_file', 'rb', 'wb',
+                         passthrough=('in_encoding', 'out_encoding'), formats_switch=True)
+        if ob is not None:
+            res.add(ob)
+
+    # ---- C19.a mideu convert and paramconv through their real command line
+    from .tools import cli_argv_io_ob
+    for mod, cmd, outs in (('cli.mideu', 'convert', ()), ('cli.paramconv', None, ('--output',))):
+        ob = cli_argv_io_ob(prog, res, 'C19.a', mod, command=cmd, out_flags=outs)
         if ob is not None:
             res.add(ob)
 
